@@ -94,6 +94,7 @@ def run(R):
     R.require_min("C10.OWN", 6)
     # whatever exception a future is completed with can be stored and handed on (no C-level narrowing of the slots it passes)
     common.exception_slot_types(R, "C10.ERR-TYPE", ("futures.FutureBase", "async_task.AsyncTask", "batching.BatchBase", "batching.BatchItemBase"))
+    common.annotation_narrowing(R, "C10.ERR-TYPE")
 
     # ---- CONSISTENT pairs
     def stores_in(f, attr):
@@ -187,6 +188,19 @@ def run(R):
                 "an Exception raised by a subscriber is contained (handler covering Exception, no re-raise)",
                 "an Exception raised by a subscriber propagates out of the completion")
     notify_override_rule(R, ro, "C10.NOTIFY-OVERRIDE")
+    # what runs before the notification cannot fail: the diagnostic lines there (DUMP_COMPUTED) print the future and its value through
+    # debug.str()/debug.repr(), which contain a user __str__/__repr__ that raises only as long as they are qcore's safe_str/safe_repr
+    ccfg_ = cfg_of(comp)
+    before = set()
+    for n, c in trig:
+        for x in ccfg_.nodes:
+            if x is not n and ccfg_.find_path([x], [n], N) is not None:
+                before.add(x.id)
+    uses_debug = any((q.call_name(cc) or "") in ("debug.str", "debug.repr") for x in ccfg_.nodes if x.id in before for cc in kit.node_calls(x))
+    if uses_debug:
+        from .c18 import safe_str_rule
+        safe_str_rule(R, "C10.NOTIFY", ": the dump line in FutureBase._computed then raises for a value whose __repr__ fails, before on_computed fires - "
+                      "subscribers are never notified and value() reports FutureIsAlreadyComputed")
 
     # a lazily computed Future whose provider raises - whatever it raises - is completed with that exception (once), so that the
     # provider is not run again and subscribers are told
